@@ -570,3 +570,35 @@ Lemma cli_keeps_existing s g :
 Proof.
   cbv zeta. unfold cli_convert_to_csv. destruct (csv_keeps_existing s g) as [A [B _]]. split; assumption.
 Qed.
+
+(* ---- C06 for the two-file target (as repaired: both files are checked before either is written) ---- *)
+(* without overwrite, an export onto a target of which EITHER file exists raises FileExistsError and the two files are
+   what they were *)
+Lemma csv_refuse s g : csv_occupied s = true -> geff_to_csv s g false = (s, Err FileExistsError).
+Proof. intros H. unfold geff_to_csv. cbn [negb andb]. rewrite H. reflexivity. Qed.
+
+(* ... and only then *)
+Lemma csv_refuse_iff s g : snd (geff_to_csv s g false) = Err FileExistsError <-> csv_occupied s = true.
+Proof.
+  split; [|intros H; rewrite (csv_refuse s g H); reflexivity].
+  unfold geff_to_csv, to_csv, csv_occupied. destruct s as [[n|] [e|]]; cbn; intro H; try reflexivity; discriminate.
+Qed.
+
+(* with overwrite the result does not depend on what was there: it is the export onto the empty target *)
+Lemma csv_replace s g :
+  geff_to_csv s g true = (mkFs (Some (fst (node_frame g))) (Some (fst (edge_frame g))), Ok tt).
+Proof. reflexivity. Qed.
+
+Lemma csv_overwrite_as_fresh s g ov : geff_to_csv s g true = geff_to_csv (mkFs None None) g ov.
+Proof. destruct ov; reflexivity. Qed.
+
+(* the state is never half-written: afterwards it is the state before or the complete export *)
+Lemma csv_all_or_nothing s g ov :
+  let r := geff_to_csv s g ov in
+  (snd r <> Ok tt /\ fst r = s) \/
+  (snd r = Ok tt /\ fst r = mkFs (Some (fst (node_frame g))) (Some (fst (edge_frame g)))).
+Proof.
+  cbv zeta. destruct ov; [right; split; reflexivity|].
+  unfold geff_to_csv, to_csv, csv_occupied. destruct s as [[n|] [e|]]; cbn;
+    first [left; split; [discriminate | reflexivity] | right; split; reflexivity].
+Qed.
